@@ -21,15 +21,16 @@ type Witness struct {
 }
 
 type Obligation struct {
-	Name      string
-	Group     string  // obligations of one group share Common and are solved incrementally
-	Common    []*Term // hypotheses shared by the whole group
-	Hyps      []*Term
-	Goal      *Term
-	Pos       string
-	Bounded   int // >0: generated in bounded mode with this bound
-	Timeout   int // >0: per-query solver timeout override in seconds (hard lemmas)
-	Witnesses []Witness
+	Name         string
+	Group        string  // obligations of one group share Common and are solved incrementally
+	Common       []*Term // hypotheses shared by the whole group
+	Hyps         []*Term
+	Goal         *Term
+	Pos          string
+	Bounded      int  // >0: generated in bounded mode with this bound
+	Timeout      int  // >0: per-query solver timeout override in seconds (hard lemmas)
+	ThoroughOnly bool // heavy lemma: discharged in the thorough tier only (listed as deferred in quick evidence)
+	Witnesses    []Witness
 	// Replay builds a Go test (package activitypub, func TestVerifReplay) from witness values.
 	Replay func(w map[string]string) string
 	// EngineErr non-empty: VC generation failed (outside subset / engine error)
@@ -92,6 +93,7 @@ type Check struct {
 	NeedTwo    bool
 	Exhaustive bool
 	replaysRun int
+	Deferred   []string
 }
 
 var verifDir = "/verif"
@@ -117,6 +119,10 @@ func NewCheck(prop, tier string) *Check {
 }
 
 func (c *Check) Add(o *Obligation) {
+	if o.ThoroughOnly && c.Tier != "thorough" {
+		c.Deferred = append(c.Deferred, o.Name)
+		return
+	}
 	if f := os.Getenv("GOVC_ONLY"); f != "" && !strings.Contains(o.Name, f) {
 		return // debugging aid: restrict the run to matching obligations
 	}
@@ -551,6 +557,7 @@ func (c *Check) Finish() int {
 			"samples":                  samples,
 			"exhaustive":               c.Exhaustive,
 			"notes":                    c.Notes,
+			"deferred_to_thorough":     c.Deferred,
 		},
 	}
 	b, _ := json.MarshalIndent(ev, "", " ")
